@@ -93,6 +93,12 @@ class C12(Machine):
         init = {"trees": [gen.tree_spec(rng, labs, rng.choice(["binary", "poly", "caterpillar"]), rng.choice(["int", "float", "none"]),
                                         internal_labels=rng.random() < 0.4) for _ in range(rng.randint(1, 3))],
                 "rows": gen.sequences(rng, labs, rng.randint(1, 6), "ACGT-?N" if cfg["dt"] == "dna" else "01?-")}
+        if kind == "tree" and rng.random() < 0.01:
+            # "all shapes": a comb of 300 tips is about 300 levels deep
+            cfg["deep"] = True
+            cfg["annotated"] = cfg["bound"] = cfg["extra_attr"] = cfg["encoded"] = False
+            cfg["labels"] = labs = gen.labels(rng, 300, "plain")
+            init["trees"] = [gen.tree_spec(rng, labs, "caterpillar", "int")]
         steps = []
         for _ in range(rng.randint(3, 60 if tier == "thorough" else 25)):
             steps.append({"side": rng.choice(["src", "copy"]), "m": rng.choice(MUTS[kind]), "k": rng.randrange(10 ** 6), "k2": rng.randrange(10 ** 6),
@@ -211,6 +217,12 @@ class C12(Machine):
         if cp is None or cp is src:
             rec.violation("NOT_A_COPY", base, "%s returned %s" % (route, "None" if cp is None else "the source itself"))
             return
+        if cfg.get("deep"):
+            # (the comparison machinery of this harness recurses too: for the deep comb only the copy itself is demanded)
+            if len(rawtree.raw_nodes(cp)) != len(rawtree.raw_nodes(src)) and depth != "extract":
+                rec.violation("NOT_EQUAL_AT_COPY", dict(base, where="deep"), "copy of a deep tree has another number of nodes")
+            rec.probe("deep_tree_copied")
+            return
         # (a) equality at copy time
         d_src, ids_src = self._dump(src, depth, ns, None)
         d_cp, ids_cp = self._dump(cp, depth, ns, ns2)
@@ -229,6 +241,13 @@ class C12(Machine):
         if bad:
             rec.violation("SHARED_MUTABLE_STATE", dict(base, what=bad[0]), "%s: %s" % (DEPTH_DOC[depth], bad[1]))
             return
+        if kind == "matrix" and depth != "shallow" and hasattr(src, "state_alphabets"):
+            # the cells of the copy are states of the source's alphabets (state alphabets are documented singletons: never copied)
+            if [id(a) for a in cp.state_alphabets] != [id(a) for a in src.state_alphabets] or \
+                    (cp.default_state_alphabet is not src.default_state_alphabet):
+                rec.violation("NOT_EQUAL_AT_COPY", dict(base, where="state_alphabets"),
+                              "the copy declares other state alphabets than its source (its cells still belong to the source's)")
+                return
         rec.ev("copied", kind, route, depth)
         # (d) bound attributes on the copy follow the copy
         if cfg["bound"] and kind in ("tree", "matrix") and depth in ("deep", "ns", "other_ns"):
